@@ -8,7 +8,7 @@ import Proofs.Run
 namespace Pyctr.C09
 open Pyctr
 universe u
-variable {σ : Type u} {F : FileOps σ} {inv : σ → Prop} {abs : σ → AFile}
+variable {σ : Type} {F : FileOps σ} {inv : σ → Prop} {abs : σ → AFile}
 
 /-- io.BytesIO (as modelled) is an ordinary growable file. -/
 theorem C09_bytesio_refines : IsFile PyFile.ops (fun _ => True) PyFile.abs := pyfile_isFile
